@@ -351,7 +351,14 @@ def oracle(sc: dict, obs: dict) -> tuple[list[tuple[str, dict]], dict]:
     for i in pos["workerEnd"]:
         if log[i][3] == "failed":
             failures.append((i, log[i][0], "worker", log[i][4]))
-    startup_failed = any(v.startswith("raised") for v in last_end.values()) and not startup_ok
+    raised_n: dict[str, int] = {}
+    for i in pos["hEnd"]:
+        if log[i][2] == "startup" and log[i][5].startswith("raised"):
+            raised_n[log[i][3]] = raised_n.get(log[i][3], 0) + 1
+    limits = {h["id"]: (h.get("opts") or {}).get("retries") for h in sc.get("handlers", []) if h["kind"] == "startup"}
+    startup_failed = any(h not in ok_pos and (last_end.get(h, "") == "raised:PermanentError" or
+                                               (limits.get(h) is not None and raised_n.get(h, 0) >= limits[h]))
+                         for h in startup_ids)
     cleanup_raised = any(log[i][2] == "cleanup" and log[i][5].startswith("raised:Permanent") for i in pos["hEnd"])
     for f in failures:
         if f[0] < end_pos:
@@ -499,7 +506,7 @@ DAEMON_SHAPES = [
     ("cancel", {"mode": "cancel"}, {"cancellation_timeout": 1.0}),
     ("cancel-backoff", {"mode": "cancel"}, {"cancellation_backoff": 1.0, "cancellation_timeout": 2.0}),
     ("cancel-hung", {"mode": "cancel"}, {}),
-    ("ignore1", {"mode": "ignore", "max_ignored": 1}, {"cancellation_timeout": 1.0}),
+    ("ignore1", {"mode": "ignore"}, {"cancellation_timeout": 1.0}),
     ("exit", {"mode": "exit", "after": 3.0}, {}),
 ]
 TRIGGERS = ["flag", "flag", "cancel", "cancel", "watch_error_kex", "watch_error_crd", "watch_error_peering", "poison",
@@ -564,7 +571,7 @@ def gen_history(rng: Any, i: int, force: dict | None = None) -> dict:
     if phase == "startup" and s_dur == 0:
         phase = "startup_end"
     t = {"startup": (rng.randrange(1, max(2, ticks(s_dur))) / TPS) if s_dur else 0.0,
-         "startup_end": s_dur,
+         "startup_end": max(s_dur, 1 / TPS),
          "discovery": s_dur + rng.choice([1, 2]) / TPS,
          "spawning": s_dur + rng.choice([3, 4, 5, 6]) / TPS,
          "steady": s_dur + rng.choice([2.0, 4.0, 7.5]),
